@@ -162,6 +162,10 @@ func drawStmt(c *choice.Stream, lit, table string, noSelect bool) Stmt {
 		{"INSERT INTO %[2]s (k, v) VALUES (%[1]s, 1) IF NOT EXISTS", false, false},
 		{"UPDATE %[2]s SET v = 3 WHERE k = %[1]s IF v = 2", false, false},
 		{"DELETE l[1] FROM %[2]s WHERE k = %[1]s", false, false},
+		// the same kinds of operation with the operand bound at execution time
+		{"DELETE l[?] FROM %[2]s WHERE k = %[1]s", false, false},
+		{"UPDATE %[2]s SET l = l + ? WHERE k = %[1]s", false, false},
+		{"UPDATE %[2]s SET c = c + ? WHERE k = %[1]s", false, false},
 	}
 	var t tpl
 	if noSelect {
